@@ -802,6 +802,7 @@ type growSrc struct {
 	off   int
 	Reads int
 	Bytes int
+	Empty int // calls that found nothing to return: a blocking source (pipe, socket) would have blocked here
 }
 
 func (g *growSrc) Read(p []byte) (int, error) {
@@ -810,6 +811,7 @@ func (g *growSrc) Read(p []byte) (int, error) {
 		return 0, nil
 	}
 	if g.off >= len(g.sink.All) {
+		g.Empty++
 		return 0, io.EOF
 	}
 	n := copy(p, g.sink.All[g.off:])
@@ -822,6 +824,7 @@ type StepOut struct {
 	Op    string `json:"op"`
 	Res   string `json:"res"`
 	Reads int    `json:"reads"`
+	Empty int    `json:"empty"` // source calls of this step that would have blocked on a blocking source
 	Avail int    `json:"avail"` // bytes emitted by the writer so far
 }
 
@@ -864,9 +867,9 @@ func (e *Env) RunC06(c *Case) (out *Out) {
 			}
 			out.Steps = append(out.Steps, StepOut{Op: "f", Avail: len(sink.All)})
 		case "open":
-			before := src.Reads
+			before, beforeE := src.Reads, src.Empty
 			rd, err := e.Roots[c.Root].NewReader(src)
-			st := StepOut{Op: "open", Avail: len(sink.All)}
+			st := StepOut{Op: "open", Avail: len(sink.All), Empty: src.Empty - beforeE}
 			if err != nil {
 				st.Res = errClass(err)
 			} else {
@@ -883,9 +886,10 @@ func (e *Env) RunC06(c *Case) (out *Out) {
 				out.Steps = append(out.Steps, st)
 				continue
 			}
-			before := src.Reads
+			before, beforeE := src.Reads, src.Empty
 			res := call(rv, "Read", pkg.ReadOptions{TillEndOfFrame: name == "rf"})
 			st.Reads = src.Reads - before
+			st.Empty = src.Empty - beforeE
 			if res[0].IsNil() {
 				st.Res = "rec:" + e.DumpRoot(c.Root, rrec) + "~" + strconv.FormatUint(e.rootMask(c.Root, rrec), 10)
 			} else {
